@@ -37,7 +37,7 @@ CLAIMS = {
     "C07": dict(
         module="c07_select", design="DESIGN.md §4 C07",
         technique="deterministic simulation: seeded populations through real selection protocols with owned entropy and scripted configuration generator, independent criterion oracle, relabelled twin runs",
-        text="Selection protocol families (EBV, GEBV, OCS, UC, OHV, random; subset/real/integer/binary and mate-selection forms) run on generated populations with explicit small optimisers; cross-configuration shape, membership, multiplicities, exchange-minimal self-pairings, exact truncation choice, permutation equivariance and the multi-objective pick are checked.",
+        text="Seventeen selection protocol families (EBV, GEBV, random, OCS, OHV, UC, wGS, generalised wGEBV, family EBV, MEH, MGR, PAFD, PAU, OPV, EMBV, MOGS, genotype builder; subset/real/integer/binary and mate-selection forms) run on generated populations with explicit small optimisers; cross-configuration shape, membership, multiplicities, exchange-minimal self-pairings, exact truncation choice, permutation equivariance and the multi-objective pick are checked.",
         note="Explicit small optimisers replace the 250-generation defaults; ties excluded by construction for the truncation clause."),
     "C08": dict(
         module="c08_repro", design="DESIGN.md §4 C08",
